@@ -25,7 +25,9 @@ Verdict(tr) ==
     <<"graceful_without_closing_handshake", term.name # "disconnected" \/ handshakeStarted \/ ~term.graceful>>,
     <<"not_every_address_tried", ~allRefused \/ Len(connects) = cfg.naddr>>,
     <<"application_send_raised_non_websocket_error",
-        \A i \in 1..n : tr[i].k = "call" /\ tr[i].res # "ok" => tr[i].wserr>>,
+        \* (a close() refused with ValueError for an unsendable reason never touched the transport)
+        \A i \in 1..n : tr[i].k = "call" /\ tr[i].res # "ok" =>
+            tr[i].wserr \/ (tr[i].m = "close" /\ tr[i].res = "ValueError" /\ tr[i].nwr = 0 /\ tr[i].nwrf = 0)>>,
     <<"socket_left_open", endr.k = "end" /\ \A i \in 1..Len(endr.socks) : endr.socks[i].closed \/ (~endr.socks[i].handed /\ ~endr.socks[i].alive)>>,
     <<"iteration_did_not_stop", \E i \in 1..n : tr[i].k = "stop">>
   >>)
